@@ -111,14 +111,18 @@ let refusal (impl_step : string) : int =
 (* the model store before the step being parsed (Hstack/Vstack choose the axis from the rank) *)
 let cur_model : z store ref = ref (empty_store : z store)
 
+(* dtype suffix @alt: the harness used the other spelling (method <-> package-level function) *)
+let alt_mode = ref false
+
 let parse_op (o : string) (impl_step : string) : zop =
   let f = fields o in
+  let meth i = (Array.length f > i && f.(i) = "method") <> !alt_mode in
   let nat i = nat_of_int (int_of_string f.(i)) in
   let zi i = z_of_int (int_of_string f.(i)) in
   match f.(0) with
-  | "bin" -> ZBin (z_of_int (bin_code f.(1)), nat 2, nat 3, parse_mode f.(4), not (Array.length f > 5 && f.(5) = "method"))
+  | "bin" -> ZBin (z_of_int (bin_code f.(1)), nat 2, nat 3, parse_mode f.(4), not (meth 5 && f.(1) <> "min" && f.(1) <> "max"))
   | "bins" -> ZBinS (z_of_int (bin_code f.(1)), nat 2, zi 3, f.(4) = "left", parse_mode f.(5))
-  | "cmp" -> ZCmp (z_of_int (cmp_code f.(1)), nat 2, nat 3, f.(4) = "same", parse_cmode f.(5), not (Array.length f > 6 && f.(6) = "method"))
+  | "cmp" -> ZCmp (z_of_int (cmp_code f.(1)), nat 2, nat 3, f.(4) = "same", parse_cmode f.(5), not (meth 6))
   | "cmps" -> ZCmpS (z_of_int (cmp_code f.(1)), nat 2, zi 3, f.(4) = "left", f.(5) = "same", parse_cmode f.(6))
   | "un" -> ZUn (z_of_int (un_code f.(1)), nat 2, parse_mode f.(3))
   | "apply" -> ZApply (z_of_int (un_code f.(1)), nat 2, parse_mode f.(3))
@@ -315,6 +319,10 @@ let expand (o : string) (impl_step : string) : zop list * int =
   | _ -> ([parse_op o impl_step], 0)
 
 let run_prog_gen (kept : bool) dt (prog : string) (impl : string) : outcome =
+  (* dtype suffix @alt: the harness used the other API spelling of every operation that has one;
+     the model and the SPEC are the same *)
+  alt_mode := String.contains dt '@';
+  let dt = (match String.index_opt dt '@' with Some i -> String.sub dt 0 i | None -> dt) in
   let ops = Array.of_list (split_ops prog) in
   let isteps = split_steps impl in
   Hashtbl.reset bufnames;
